@@ -66,8 +66,20 @@ class CFG:
         self.succ[a.id].add(b.id)
         self.pred[b.id].add(a.id)
 
+    @staticmethod
+    def _may_raise(n: Node) -> bool:
+        a = n.ast
+        if a is None:
+            return False
+        for x in walk_no_nested(a):
+            if isinstance(x, (ast.Call, ast.Subscript, ast.BinOp, ast.Raise, ast.Assert, ast.Delete, ast.Await, ast.Yield, ast.YieldFrom)):
+                return True
+        return False
+
     def _exc_edges(self, n: Node, ctx: _Ctx) -> None:
         """Node n may raise: connect to innermost try handlers / finally, or raise-exit."""
+        if not self._may_raise(n):
+            return
         if ctx.tries:
             t = ctx.tries[-1]
             if t.get("in_body"):
